@@ -76,6 +76,30 @@ Proof. intros R r0 r1 radd rmul rsub ropp Rth inj toZ I0 Ia Im It w ninv Hw Hn H
   - exact (dft_correlate R r0 r1 radd rmul rsub ropp Rth inj toZ I0 Ia Im It w ninv Hw Hn Ho gs a b Hgs Ha Hb). Qed.
 Print Assumptions C12_fftconvolve_with_exact_dft.
 
+(** the compiled wrapper kernels.nb_rfft (regenerated, Gen/FftOps.v) called WITHOUT a length, run with the exact transform: bin k is the
+    discrete Fourier sum of the series at its OWN length -- no cropping, no padding to a good size -- whatever that length is *)
+Theorem C12_nb_rfft_own_length_is_fourier_sum : forall (R : Type) (r0 r1 : R) (radd rmul : R -> R -> R)
+  (inj : Z -> R) (toZ : R -> Z) (w ninv : nat -> R) (gs : Z -> Z) (x : list Z) (k : nat), (k < length x)%nat ->
+  nth k (nb_rfft_run (dft_fft R r0 r1 radd rmul inj toZ w ninv gs) x None) r0 =
+  dft R r0 r1 radd rmul (length x) (w (length x)) (sig R inj x) k.
+Proof. exact dft_nb_rfft_own_length. Qed.
+Print Assumptions C12_nb_rfft_own_length_is_fourier_sum.
+
+(** ... and satisfies Parseval's identity at that length (dftc: the conjugate transform; for real series over the complex numbers the
+    complex conjugate of the spectrum, so the left side is sum_k |X_k|^2) *)
+Theorem C12_nb_rfft_own_length_parseval : forall (R : Type) (r0 r1 : R) (radd rmul rsub : R -> R -> R) (ropp : R -> R),
+  ring_theory r0 r1 radd rmul rsub ropp eq ->
+  forall (inj : Z -> R) (toZ : R -> Z) (w ninv : nat -> R),
+  (forall n, (0 < n)%nat -> rpow R r1 rmul (w n) n = r1) ->
+  (forall n d, (0 < d < n)%nat -> rsum R r0 radd n (fun k => rpow R r1 rmul (w n) (k * d)) = r0) ->
+  forall (gs : Z -> Z) (x : list Z), (0 < length x)%nat ->
+  rsum R r0 radd (length x) (fun k => rmul (nth k (nb_rfft_run (dft_fft R r0 r1 radd rmul inj toZ w ninv gs) x None) r0)
+                                             (dftc R r0 r1 radd rmul (length x) (w (length x)) (sig R inj x) k)) =
+  rmul (rnat R r0 r1 radd (length x)) (rsum R r0 radd (length x) (fun j => rmul (sig R inj x j) (sig R inj x j))).
+Proof. intros R r0 r1 radd rmul rsub ropp Rth inj toZ w ninv Hw Ho gs x Hx.
+  exact (dft_nb_rfft_own_length_parseval R r0 r1 radd rmul rsub ropp Rth inj toZ w ninv Hw Ho gs x Hx). Qed.
+Print Assumptions C12_nb_rfft_own_length_parseval.
+
 (** non-vacuity of the hypotheses on the root of unity: the rationals with w = -1, N = 2 (for every N at once: the complex numbers) *)
 Example C12_dft_hypotheses_satisfiable :
   ring_theory (Q2Qc 0) (Q2Qc 1) Qcplus Qcmult Qcminus Qcopp eq /\
